@@ -280,7 +280,10 @@ class AMF:
                 acc+=bytes([0x29,5,1])+ue.ip+[fdie, bytes([0x22,4,1,1,2,3])+fdie+bytes([0x25,9,8])+b'internet', bytes([0x22,4,1,1,2,3])+fdie, fdie+bytes([0x25,9,8])+b'internet'][(s.n_sessions-1)%4]   # everything after the Session-AMBR is optional: the PDU address may be the last IE
                 dl=bytes([0x7e,0,0x68,1])+len(acc).to_bytes(2,'big')+acc+bytes([0x12,psi])
                 t=ies_type_of(1,29)
-                item={'PDUSessionID':psi,'PDUSessionNASPDU':OS(s.protect(ue,dl,2)),'SNSSAI':{'SST':OS(b'\x01'),'SD':OS(b'\x01\x02\x03')},'PDUSessionResourceSetupRequestTransfer':OS(trb)}
+                # the slice the network grants: sD is OPTIONAL in the NGAP S-NSSAI, and the network may grant another slice than the one asked for
+                snv=(s.n_sessions-1+s.cfg.get('snssai_shift',0))%4
+                sn=[{'SST':OS(b'\x01'),'SD':OS(b'\x01\x02\x03')},{'SST':OS(b'\x01')},{'SST':OS(b'\x02'),'SD':OS(b'\xaa\xbb\xcc')},{'SST':OS(b'\xff')}][snv]
+                item={'PDUSessionID':psi,'PDUSessionNASPDU':OS(s.protect(ue,dl,2)),'SNSSAI':sn,'PDUSessionResourceSetupRequestTransfer':OS(trb)}
                 ies=[ie_named(t,10,0,ue.amf),ie_named(t,85,0,ue.ran),ie_named(t,74,0,{'List':[item]})]
                 ue.state='setup'
                 return [mk_pdu(1,29,0,None,ies)]
